@@ -3,6 +3,10 @@ extern crate lazy_static;
 
 mod module_resolver;
 mod utils;
+#[cfg(feature = "beff_verif")]
+pub mod verif;
+#[cfg(feature = "beff_verif")]
+use verif::{emit_diagnostic_str, read_file_content, resolve_import};
 
 use anyhow::Result;
 use anyhow::anyhow;
@@ -50,16 +54,19 @@ pub fn init(verbose: bool) {
     utils::set_panic_hook();
 }
 
+#[cfg(not(feature = "beff_verif"))]
 #[wasm_bindgen]
 extern "C" {
     fn resolve_import(current_file: &str, specifier: &str) -> Option<String>;
 }
 
+#[cfg(not(feature = "beff_verif"))]
 #[wasm_bindgen]
 extern "C" {
     fn read_file_content(file_name: &str) -> Option<String>;
 }
 
+#[cfg(not(feature = "beff_verif"))]
 #[wasm_bindgen]
 extern "C" {
     fn emit_diagnostic(diag: JsValue);
@@ -143,6 +150,7 @@ fn run_extraction(entry: EntryPoints) -> ParserExtractResult {
         })
     })
 }
+#[cfg(not(feature = "beff_verif"))]
 fn print_errors(errors: &[DiagnosticInformation]) {
     let v = WasmDiagnostic::from_diagnostics(errors);
     let v = serde_json::to_string(&v).expect("should be able to serialize diagnostics");
@@ -175,4 +183,11 @@ fn update_file_content_inner(file_name: &str, content: &str) {
             b.files.insert(file_name, f);
         })
     }
+}
+
+#[cfg(feature = "beff_verif")]
+fn print_errors(errors: &[DiagnosticInformation]) {
+    let v = WasmDiagnostic::from_diagnostics(errors);
+    let v = serde_json::to_string(&v).expect("should be able to serialize diagnostics");
+    emit_diagnostic_str(v)
 }
